@@ -4,17 +4,19 @@ import random as _r
 from pv import common, gen, detsched
 
 RULE = ("seeded binary DCOPs (2-6 vars, domains 1-4, all shapes incl. unconstrained variables and duplicate "
-        "scopes, no variable costs); costs >= 0 in min mode (branch-and-bound on partial costs presupposes "
+        "scopes, no variable costs, palettes incl. integers around 2^62 whose sums exceed 64 bits; a quarter of the runs push every message through the json wire format); costs >= 0 in min mode (branch-and-bound on partial costs presupposes "
         "monotone accumulation), arbitrary sign in max mode; each instance under random start orders / FIFO "
         "schedules; non-trivial = >=2 variables, >=1 binary constraint and >=1 backward message; distinct by "
         "hash(instance, schedule)")
 
 
-def run_one(case, sched_seed, bias=None, choices=None):
+def run_one(case, sched_seed, bias=None, choices=None, wire=False):
     dcop = gen.build_dcop(case)
     detsched.seed_algo_rngs(sched_seed)
     comps, graph, _ = detsched.build_computations("syncbb", dcop)
-    pool = detsched.Pool(sched_seed, choices=choices)
+    # wire: every message goes through simple_repr -> json -> from_repr, as between processes (values are then equal
+    # but no longer identical objects)
+    pool = detsched.Pool(sched_seed, choices=choices, wire=wire)
     rng = _r.Random(sched_seed * 7919 + 1)
     names = [c.name for c in comps]
     if bias is None:
@@ -75,7 +77,7 @@ def run_one(case, sched_seed, bias=None, choices=None):
 
 def make_case(rng, tier):
     objective = rng.choice(["min", "max"])
-    pal = ("ties", "distinct", "float", "hard") if objective == "min" else ("ties", "distinct", "float", "neg", "hard")
+    pal = ("ties", "distinct", "float", "hard", "int62") if objective == "min" else ("ties", "distinct", "float", "neg", "hard", "int62")
     case = gen.gen_case(rng, min_vars=1, max_vars=6 if tier == "thorough" else 5, max_dom=4 if rng.random() < 0.3 else 3,
                         palettes=pal, objective=objective, binary_only=True, var_costs=False, max_space=1500)
     return case
@@ -90,7 +92,9 @@ def worker(job):
         csig = gen.case_sig(case)
         for s in range(job["nsched"]):
             sseed = (seed * 1000003 + i * 101 + s) & 0x7FFFFFFF
-            res, pool = run_one(case, sseed)
+            wire = (i + s) % 4 == 3
+            res, pool = run_one(case, sseed, wire=wire)
+            R.bump("transport", "json wire" if wire else "by reference")
             nontrivial = bool(case["constraints"]) and res["kinds"].get("backward", 0) >= 1 and len(case["variables"]) >= 2
             R.case(common.stable_hash([csig, res["trace"]]), nontrivial,
                    sample={"case": case, "bias": res["bias"], "schedule_head": res["trace"][:30],
@@ -104,7 +108,7 @@ def worker(job):
             R.bump("shapes", case["shape"])
             for p in res["problems"]:
                 R.violation("syncbb:%s:%s" % (case["objective"], p[0]), p[1],
-                            {"case": case, "sched_seed": sseed, "bias": res["bias"], "choices": res["trace"], "trace": p[2]})
+                            {"case": case, "sched_seed": sseed, "bias": res["bias"], "choices": res["trace"], "trace": p[2], "wire": wire})
     return R
 
 
@@ -122,7 +126,7 @@ def main(chk, tier, seed):
 
 def replay(payload):
     w = payload["witness"]
-    res, pool = run_one(w["case"], w["sched_seed"], bias=w["bias"], choices=list(w["choices"]))
+    res, pool = run_one(w["case"], w["sched_seed"], bias=w["bias"], choices=list(w["choices"]), wire=w.get("wire", False))
     print("replay: status=%s problems=%s" % (res["status"], [(p[0], p[1]) for p in res["problems"]]))
     if res["problems"]:
         print("VIOLATION property=C02 replay=(replayed)")
